@@ -24,11 +24,45 @@ CLAIMED = {
              'correspondence with the executable layout model Model/Layout.v; universal theorems for the address/label '
              'clauses and the emitted-segment invariant.',
         design_ref='DESIGN.md section 4, C02',
-        note='C02_sound / C02_rejects for the full layout (op words, reserved ranges, chain structure and execution) are not yet '
-             'proved (statements visible as C02_sound_statement / C02_rejects_statement); per-program decisions rest on the '
-             'certified checker plus vm_compute; lexing and LALR parsing are shared with the implementation through the AST '
-             'dump; known findings F16, F17, F18.',
+        note='universal theorem for all non-wflip clauses of the denotation (C02_sound_static_partial, guards F17/F18); the wflip '
+             'chain clause is decided per program by the proved-sound checker; the full C02_sound is not yet a single theorem; '
+             'lexing and LALR parsing are shared with the implementation through the AST dump; F8, F16 fixed; F17, F18 known.',
         technique='Coq-certified per-program checker (soundness theorem) + layout model correspondence + partial universal theorems'),
+    'C06': dict(
+        category='proof',
+        text='Qed-closed universal theorems (Properties/C06.v) about the Gallina model of fjm_writer/fjm_reader: round trip for '
+             'every accepted call sequence x width x version x flags x zero-tail threshold (C06_roundtrip), version '
+             'independence, dense/lazy zero-tail independence, relative-jump cancellation, the writer ends only in its own '
+             'error (C06_unrepresentable_rejected) and what it accepts is representable.',
+        design_ref='DESIGN.md section 4, C06',
+        note='Premises: decompress(compress x)=x for liblzma (the real codec answers are fed to the model each run); pool and '
+             'table lengths below 2^64. The hand-written model is tied to /repo each run by a differential campaign evaluated '
+             'with vm_compute inside Coq, plus the spec evaluated on the real behaviour. Version independence of assembled '
+             'programs and get_word\'s address mask are campaign-only. F3-F5 fixed.',
+        technique='Coq round-trip / codec theorems on a writer+reader model + correspondence campaign evaluated in Coq'),
+    'C10': dict(
+        category='proof',
+        text='C10_total (every byte string and every decoder behaviour ends in an image or the read error), C10_consistent '
+             '(an accepted file has a consistent table), C10_torn (every strict prefix of every writer-produced file is '
+             'rejected or loads the same Reader state), on the model of Reader.__init__; campaign over every prefix, every '
+             'single-field corruption, payload damage and random strings, through Reader and fjm_run.run.',
+        design_ref='DESIGN.md section 4, C10',
+        note='Premise of C10_torn: a strict prefix of a raw LZMA2 stream does not decode (checked on every v3 prefix each run). '
+             'The allocation bound is not proved (shared data ranges make memory |table| x |pool|; decompression bombs '
+             'excluded). fjm_run.run classification and hang-freedom are campaign-only. F6, F19 fixed.',
+        technique='Coq totality / torn-prefix / consistency theorems on the reader model + corruption campaign evaluated in Coq'),
+    'C12': dict(
+        category='proof',
+        text='Coq theorems: every operator of the table equals Z arithmetic (floor div, divisor-sign mod, arithmetic shifts, '
+             'two\'s-complement bit ops); staged evaluation through parser folding, any sequence of eval_new passes and '
+             'exact_eval equals direct evaluation of the fully substituted expression for every partition and order; the '
+             'reference parser realises the 14-row precedence table; literal decoders are positional / little-endian. Tied '
+             'to the source by tables regenerated with Python ast on every run and by an exhaustive operator-pair campaign '
+             'plus a random campaign evaluated in Coq.',
+        design_ref='DESIGN.md section 4, C12',
+        note='Coq kernel + vm_compute. CPython int semantics, sly\'s LALR/regex engine and error-message construction are tied '
+             'by campaign only. Operands bounded to 4096-bit intermediates in the campaign. F15 fixed.',
+        technique='Coq theorems on an expression model + regenerated-facts tie + exhaustive pair / random correspondence'),
     'C07': dict(
         category='proof',
         text='Every observable (cause, ops, fault address, output, last-ops list, final in-segment words read back through '
